@@ -90,6 +90,7 @@ func body(r *vf.Run) {
 	r.Assume("domain: no layer carries both a whiteout for a name and a directory of that name (excluded by the statement); no genuine 0/0 character device entries; no duplicate names within a layer; no explicit root entry; an opaque marker in the layer root only in the lowest layer (the kernel ignores the opaque xattr of a lowerdir root)")
 	r.Assume("slack: a whiteout whose target name is itself hidden (.wh..wh.X, .wh.<landmark> in the root) may be listed or not (clause 1), but listing and lookup must agree (clause 2); directory mode/owner/mtime are compared only where the highest layer containing the directory describes it explicitly; attributes of synthesised whiteouts other than type and device number are not judged; '.'/'..' and the state directory name are exempt from clause 2")
 	l2Stage(r)
+	r.Logf("L2 stage done")
 
 	caps := probeCaps(r)
 	r.Set("capabilities", caps)
@@ -101,9 +102,11 @@ func body(r *vf.Run) {
 	// (a small one in quick: it is the only stage that exercises go-fuse + kernel lookups).
 	ex := r.RunChild(vf.ChildSpec{Stage: "l3", Timeout: 6 * time.Minute})
 	childOutcome(r, "l3", ex)
+	r.Logf("L3 stage done")
 	if caps["overlay"] {
 		ex = r.RunChild(vf.ChildSpec{Stage: "kernel", Timeout: 12 * time.Minute})
 		childOutcome(r, "kernel", ex)
+		r.Logf("kernel stage done")
 	} else {
 		r.Inconclusive("capability: overlayfs mount failed, kernel stage skipped")
 	}
@@ -239,7 +242,9 @@ func l2Stage(r *vf.Run) {
 			}()
 			for si := range next {
 				rng := r.RNG(1, uint64(si))
+				tb0 := time.Now()
 				bs, err := buildStack(rng, reg, fmt.Sprintf("l2/s%d", si), oc.Opts{})
+				r.Count("t_build_ms", int(time.Since(tb0).Milliseconds()))
 				if err != nil {
 					r.Violate("serve:build-or-publish-failed", err.Error(), map[string]any{"stack_index": si})
 					continue
@@ -305,14 +310,18 @@ func runL2Case(r *vf.Run, rng *prng.R, env *l2.Env, bs *builtStack, store string
 		for k, v := range ctx {
 			lctx[k] = v
 		}
+		ts0 := time.Now()
 		l, err := serveLayer(env, bs, i)
+		r.Count("t_serve_ms", int(time.Since(ts0).Milliseconds()))
 		if err != nil {
 			r.Violate("serve:resolve-or-verify-failed", fmt.Sprintf("honest registry, genuine blob, layer %d (%s, %s): %v", i, store, bs.blobs[i].Opts, err), lctx)
 			complete = false
 			break
 		}
 		base := uint32(rng.Pick(0, 0, 1, 7, 0xfffe))
+		tc0 := time.Now()
 		view, ok := captureLayer(r, rng.Derive(uint64(i)), l, bs, i, base, mode, bridge, lctx, orders)
+		r.Count("t_capture_ms", int(time.Since(tc0).Milliseconds()))
 		l.Done()
 		if !ok {
 			complete = false
